@@ -6,6 +6,7 @@ verus! {
 //@include prelude/io.rs
 //@include prelude/fjall_types.rs
 //@include prelude/fs.rs
+//@include prelude/xxh3.rs
 //@include spec/byte_lemmas.rs
 //@include spec/journal_format.rs
 //@include spec/batch_format.rs
